@@ -71,6 +71,13 @@ def generate(rng, tier):
         # cannot raise the objective (separable quadratic, minimiser inside
         # the box), so that monotonicity is still owed
         cfg['proj'] = rng.random() < 0.35
+        if rng.random() < 0.3:
+            # an explicit small backtracking budget on a problem that is
+            # stiff relative to it (seed d12): when the budget runs out the
+            # line search documents a ValueError -- it must not hand back a
+            # step it never tested
+            cfg['max_num_iter'] = rng.choice([2, 3, 5, 8])
+            cfg['stiff'] = rng.choice([1.0, 30.0, 300.0, 3000.0])
         plan['config'] = cfg
         plan['niter'] = rng.randint(2, 25)
     elif w == 'power':
@@ -791,11 +798,17 @@ def _steepest(plan, ctx):
             b = P.rand_elem(A.range, g)
         f = (F.L2NormSquared(A.range).translated(b) * A +
              0.05 * F.L2NormSquared(X))
+        lskw = {}
+        if cfg.get('max_num_iter'):
+            f = cfg.get('stiff', 1.0) * f
+            lskw['max_num_iter'] = cfg['max_num_iter']
+            ctx.fired('linesearch-budget-given')
         x = P.rand_elem(X, g, 3.0 if cfg.get('proj') else 1.0)
         ls = F.BacktrackingLineSearch(f, tau=cfg['tau'],
                                       discount=cfg['discount'],
                                       alpha=cfg['alpha'],
-                                      estimate_step=cfg['estimate_step'])
+                                      estimate_step=cfg['estimate_step'],
+                                      **lskw)
     N = plan['niter']
     seq = [float(f(x))]
     fired = {}
@@ -809,9 +822,12 @@ def _steepest(plan, ctx):
                                callback=lambda xx: seq.append(float(f(xx))))
     except (ValueError, AssertionError) as e:
         # the line search documents a ValueError when no decrease can be
-        # found; legitimate only at (numerical) stationarity
+        # found; legitimate only at (numerical) stationarity -- or when the
+        # caller's own backtracking budget is exhausted
         gn = f.gradient(x).norm()
-        if gn > 1e-6 * (1 + abs(seq[0])):
+        if cfg.get('max_num_iter') and 'exceeded maximum' in str(e):
+            ctx.probe('linesearch-budget-exhausted')
+        elif gn > 1e-6 * (1 + abs(seq[0])):
             raise Violation('C12', 'C12/raise/steepest_descent/linesearch',
                             'line search failed away from stationarity '
                             '(|grad|={:.3g}): {}'.format(gn, str(e)[:200]))
